@@ -338,10 +338,17 @@ class SpatialTransform(DeviceProperty, Module, metaclass=ABCMeta):
             # Displacement field with domain different from output domain
             # - Use F.grid_sample() to resample displacement field and adjust vectors.
             if grid != self.grid() or align_corners != self.align_corners():
-                flow = FlowFields(data, grid=self.grid().reshape(data.shape[2:]))
-                flow = flow.sample(grid)
-                flow = flow.axes(Axes.from_grid(grid))
-                data = flow.tensor()
+                # Note: Do not wrap data in FlowFields, which would detach it from the autograd graph
+                source = self.grid().reshape(data.shape[2:])
+                axes = self.axes()
+                coords = grid.coords(align_corners=self.align_corners(), device=data.device)
+                coords = grid.transform_points(coords, axes=axes, to_grid=source, to_axes=axes)
+                data = U.grid_sample(data, coords.unsqueeze(0), align_corners=self.align_corners())
+                data = U.move_dim(data, 1, -1)
+                data = source.transform_vectors(
+                    data, axes=axes, to_axes=Axes.from_grid(grid), to_grid=grid
+                )
+                data = U.move_dim(data, -1, 1)
             # Displacement field with same domain as output grid, but differing size
             # - Use F.interpolate() to resize displacement field.
             elif grid.shape != data.shape[2:]:
